@@ -711,9 +711,104 @@ def run_chained(job):
     return {"problems": out, "master_alive": master.is_alive()}
 
 
+def run_context_kinds(job):
+    """Jobs whose CONTEXT is of every accepted kind: a plain ContextType, none at all, and a ContextCollectionType (a global
+    context plus one context per element of the data collection -- a ContextType subclass).  Every Future yields what a direct
+    run of the pipeline on an equal payload yields: the data, the context's type, its global part and its element contexts."""
+    import logging
+    import threading
+    from semantiva import Pipeline, Payload
+    from semantiva.context_processors import ContextType, ContextCollectionType
+    from semantiva.examples.test_utils import FloatDataType, FloatDataCollection, FloatMultiplyOperation, FloatCollectValueProbe
+    from semantiva.execution.executor.executor import SequentialSemantivaExecutor
+    from semantiva.execution.job_queue.queue_orchestrator import QueueSemantivaOrchestrator
+    from semantiva.execution.job_queue.worker import worker_loop
+    from semantiva.execution.transport.in_memory import InMemorySemantivaTransport
+    from semantiva.logger.logger import Logger
+
+    def quiet(name):
+        lg = logging.getLogger(name)
+        lg.handlers[:] = [logging.NullHandler()]
+        lg.propagate = False
+        lg.setLevel(logging.CRITICAL)
+        return Logger(logger=lg, console_output=False)
+
+    def coll_ctx(n, unit):
+        return ContextCollectionType(global_context={"unit": unit}, context_list=[ContextType({"exposure": 0.5 * (k + 1)}) for k in range(n)])
+
+    def coll(n):
+        return FloatDataCollection([FloatDataType(float(k + 1)) for k in range(n)])
+
+    def mk(i):
+        if i == 0:
+            return [{"processor": FloatMultiplyOperation, "parameters": {"factor": 3}}, {"processor": FloatCollectValueProbe, "context_key": "probe"}], FloatDataType(10.0), ContextType({"tag": 0})
+        if i == 1:
+            return [{"processor": "FloatValueDataSource", "parameters": {"value": 4.0}}, {"processor": FloatMultiplyOperation, "parameters": {"factor": 5}}], None, None
+        if i == 2:
+            return [{"processor": "rename:unit:units"}], coll(2), coll_ctx(2, "mm")
+        if i == 3:
+            return [{"processor": "delete:exposure"}], coll(3), coll_ctx(3, "cm")
+        return [{"processor": FloatMultiplyOperation, "parameters": {"factor": 2}}], FloatDataType(1.5), ContextType({})
+
+    def describe(data, ctx):
+        if isinstance(ctx, ContextCollectionType):
+            shared = {k: ctx.get_value(k) for k in ContextType.keys(ctx)}
+            items = [c.to_dict() for c in ctx]
+        else:
+            shared, items = ctx.to_dict(), None
+        shared.pop("job_id", None)
+        return [str(data), type(ctx).__name__, json.dumps(shared, sort_keys=True, default=repr), json.dumps(items, sort_keys=True, default=repr)]
+    n = 5
+    expected = []
+    for i in range(n):
+        cfg, data, ctx = mk(i)
+        try:
+            out = Pipeline(cfg, logger=quiet("direct")).process(Payload(data, ctx if ctx is not None else ContextType()))
+            expected.append(["ok"] + describe(out.data, out.context))
+        except Exception as exc:  # noqa
+            expected.append(["error", type(exc).__name__])
+    transport = InMemorySemantivaTransport()
+    orch = QueueSemantivaOrchestrator(transport, logger=quiet("master"))
+    threading.Thread(target=orch.run_forever, daemon=True).start()
+    stop = threading.Event()
+    for w in range(2):
+        threading.Thread(target=worker_loop, args=(w, transport, SequentialSemantivaExecutor(), stop, quiet("worker%d" % w)), daemon=True).start()
+    problems = []
+    try:
+        futs = []
+        for i in range(n):
+            cfg, data, ctx = mk(i)
+            futs.append(orch.enqueue(cfg, data=data, context=ctx, return_future=True))
+        for i, fut in enumerate(futs):
+            try:
+                data, ctx = fut.result(timeout=20)
+                got = ["ok"] + describe(data, ctx)
+            except Exception as exc:  # noqa
+                got = ["error", type(exc).__name__]
+            if got != expected[i]:
+                kind = ["plain", "none", "collection-rename-global", "collection-delete-element-key", "empty"][i]
+                problems.append(["C15:wrong-result:context-kind:" + kind, "job %d (context kind %s): Future %s, direct execution %s" % (i, kind, got, expected[i])])
+    finally:
+        try:
+            orch.stop()
+        except Exception:  # noqa
+            pass
+        stop.set()
+    return {"problems": problems}
+
+
 def main():
     job = json.load(sys.stdin)
     L = load()
+    if "context_kinds" in job:
+        try:
+            out = run_context_kinds(job)
+        except Exception as ex:  # noqa
+            import traceback
+            out = {"error": "%r\n%s" % (ex, traceback.format_exc()[-1200:])}
+        sys.stdout.write(json.dumps(out))
+        sys.stdout.flush()
+        os._exit(0)
     if "chained" in job:
         res = []
         for j in job["chained"]:
